@@ -15,6 +15,7 @@
 package s3proxy
 
 import (
+	"bytes"
 	"context"
 	"crypto/sha256"
 	"encoding/base64"
@@ -543,6 +544,15 @@ func (s *S3Proxy) ListParts(ctx context.Context, input *s3.ListPartsInput) (s3re
 	}, nil
 }
 
+// noDefaultChecksum is used for empty uploads. The SDK cannot send an empty,
+// non seekable body as an aws-chunked stream the endpoint accepts; the body is
+// replaced by an empty seekable one, and the SDK is kept from adding a
+// checksum of its own choice, so that the endpoint applies its default as it
+// does for a direct request. A checksum the client asked for is still sent.
+func noDefaultChecksum(o *s3.Options) {
+	o.RequestChecksumCalculation = aws.RequestChecksumCalculationWhenRequired
+}
+
 func (s *S3Proxy) UploadPart(ctx context.Context, input *s3.UploadPartInput) (*s3.UploadPartOutput, error) {
 	if input.ChecksumCRC32 != nil && *input.ChecksumCRC32 == "" {
 		input.ChecksumCRC32 = nil
@@ -577,9 +587,15 @@ func (s *S3Proxy) UploadPart(ctx context.Context, input *s3.UploadPartInput) (*s
 
 	// streaming backend is not seekable,
 	// use unsigned payload for streaming ops
-	output, err := s.client.UploadPart(ctx, input, s3.WithAPIOptions(
+	opts := []func(*s3.Options){s3.WithAPIOptions(
 		v4.SwapComputePayloadSHA256ForUnsignedPayloadMiddleware,
-	))
+	)}
+	if input.ContentLength != nil && *input.ContentLength == 0 {
+		input.Body = bytes.NewReader(nil)
+		opts = append(opts, noDefaultChecksum)
+	}
+
+	output, err := s.client.UploadPart(ctx, input, opts...)
 	return output, handleError(err)
 }
 
@@ -737,6 +753,14 @@ func (s *S3Proxy) PutObject(ctx context.Context, input s3response.PutObjectInput
 
 	// streaming backend is not seekable,
 	// use unsigned payload for streaming ops
+	opts := []func(*s3.Options){s3.WithAPIOptions(
+		v4.SwapComputePayloadSHA256ForUnsignedPayloadMiddleware,
+	)}
+	if input.ContentLength != nil && *input.ContentLength == 0 {
+		input.Body = bytes.NewReader(nil)
+		opts = append(opts, noDefaultChecksum)
+	}
+
 	output, err := s.client.PutObject(ctx, &s3.PutObjectInput{
 		Bucket:                    input.Bucket,
 		Key:                       input.Key,
@@ -773,9 +797,7 @@ func (s *S3Proxy) PutObject(ctx context.Context, input s3response.PutObjectInput
 		SSEKMSEncryptionContext:   input.SSEKMSEncryptionContext,
 		SSEKMSKeyId:               input.SSEKMSKeyId,
 		WebsiteRedirectLocation:   input.WebsiteRedirectLocation,
-	}, s3.WithAPIOptions(
-		v4.SwapComputePayloadSHA256ForUnsignedPayloadMiddleware,
-	))
+	}, opts...)
 	if err != nil {
 		return s3response.PutObjectOutput{}, handleError(err)
 	}
